@@ -18,8 +18,9 @@ type TableEntry struct {
 	KeyName string
 	Val     ssa.Value // resolved value: *ssa.Function, *ssa.Const, *ssa.Call (closure factory), …
 	Fn      *ssa.Function
-	Bound   []ssa.Value // for closures produced by a factory call: the factory's arguments
-	Recv    ssa.Value   // for a bound method value (x.m): the receiver x; Fn is the method itself
+	Bound   []ssa.Value                  // for closures produced by a factory call: the factory's arguments
+	Recv    ssa.Value                    // for a bound method value (x.m): the receiver x; Fn is the method itself
+	RecvArg map[*ssa.Parameter]ssa.Value // Recv built inside a factory: the factory's parameters → the arguments of this entry's call
 	Factory *ssa.Function
 	Pos     ssa.Instruction
 }
@@ -601,6 +602,19 @@ func (c *Ctx) mkEntry(key, val ssa.Value, at ssa.Instruction) TableEntry {
 			if cl := closureReturned(f); cl != nil {
 				e.Fn = cl.Fn.(*ssa.Function)
 				e.Factory = f
+				// the factory returns a bound method value of a receiver it builds from its parameters
+				// (opRenderer{op: op}.compound): the method is the render function, the receiver literal's fields
+				// are the bindings, read with the factory's parameters replaced by this call's arguments
+				if m := boundMethod(e.Fn); m != nil && len(cl.Bindings) == 1 {
+					e.Fn, e.Recv = m, cl.Bindings[0]
+					e.RecvArg = map[*ssa.Parameter]ssa.Value{}
+					for i, fp := range f.Params {
+						if i < len(x.Call.Args) {
+							e.RecvArg[fp] = x.Call.Args[i]
+						}
+					}
+					return e
+				}
 				// map free variables to the factory's arguments
 				for _, b := range cl.Bindings {
 					bound := b
